@@ -2,6 +2,7 @@
 pub mod classify;
 pub mod clientsim;
 pub mod handlers;
+pub mod httpscript;
 pub mod jgen;
 pub mod memsrv;
 pub mod msggen;
